@@ -251,7 +251,9 @@ fn rewrite_kids(r: &mut Rng, pname: &str, kids: &[N], rate: u64) -> Vec<N> {
         let i = r.below(out.len() as u64) as usize;
         let mut j = i;
         while j < out.len() && is_inline(&out[j]) && j - i < 3 { j += 1; }
-        if j > i && out[i..j].iter().any(has_word) {
+        // (inside an inline element any run may be wrapped, also one of white space only)
+        let inline_parent = ["em", "strong", "code", "s", "del", "i", "span", "a", "u"].contains(&pname);
+        if j > i && (inline_parent || out[i..j].iter().any(has_word)) {
             let chunk: Vec<N> = out.drain(i..j).collect();
             out.insert(i, N::el("span", chunk));
         }
@@ -301,6 +303,7 @@ fn c15(r: &mut Rng, i: u64, p: &HashMap<String, String>) -> Vec<Value> {
                     "min_wrap" => { f.tables = false; f.lists = false; f.quotes = false; f.heads = false; f.dl = false; }
                     _ => {} }
     }
+    f.ids = r.chance(1, 3);        // fragment markers must not disturb any option
     let mut g = G::new(r, f);
     let body = g.flow(0);
     let html = doc_html(&body);
